@@ -57,12 +57,17 @@ def validate(wt, prop):
 
 
 def collect(root, only=None):
-    props = sorted(d for d in os.listdir(root) if os.path.isdir(os.path.join(root, d)) and d.startswith('C') and (not only or d in only))
+    """directories named Cxx hold patches for that property; other directories need <root>/map.json
+    {dir: {harmlessK: Cxx}} naming the property whose anchored code each patch touches"""
+    pmap = json.load(open(os.path.join(root, 'map.json'))) if os.path.exists(os.path.join(root, 'map.json')) else {}
+    props = sorted(d for d in os.listdir(root) if os.path.isdir(os.path.join(root, d)) and (d.startswith('C') or d in pmap) and (not only or d in only))
     with ThreadPoolExecutor(8) as ex:
         results = list(ex.map(lambda p: (p, validate(os.path.join(root, p), p)), props))
     os.makedirs(SET, exist_ok=True)
-    for prop, rs in results:
+    for dname, rs in results:
         for res in rs:
+            prop = pmap.get(dname, {}).get(res['dir'], dname)
+            res['property'] = prop
             if not res.get('confirmed'):
                 print(prop, res['dir'], 'NOT CONFIRMED', json.dumps(res)[:400])
                 continue
@@ -70,7 +75,7 @@ def collect(root, only=None):
             while os.path.exists(f'{SET}/{prop}_{n}'):
                 n += 1
             dest = f'{SET}/{prop}_{n}'
-            src = os.path.join(root, prop, res['dir'])
+            src = os.path.join(root, dname, res['dir'])
             # skip duplicates of an already collected patch
             patch = open(os.path.join(src, 'patch.diff')).read()
             if any(os.path.exists(f'{SET}/{d}/patch.diff') and open(f'{SET}/{d}/patch.diff').read() == patch for d in os.listdir(SET)):
